@@ -90,6 +90,7 @@ func plan(tier string, seed int64) []driver.Case {
 	for _, d := range []string{"Timeout(3ms)"} {
 		cases = append(cases, driver.Case{ID: "twosubs/" + d + "/silent", P: map[string]string{"kind": "twosubs", "adhoc": d}})
 	}
+	cases = append(cases, spinCases(tier)...)
 	// hot sources: the producer's context must be delivered
 	for _, k := range []string{"publish", "behavior", "replay", "async", "unicast"} {
 		cases = append(cases, driver.Case{ID: "subject/" + k, P: map[string]string{"kind": "subject", "subject": k}})
@@ -484,6 +485,8 @@ func runCase(c driver.Case) driver.Result {
 		return runSubject(c)
 	case "twosubs":
 		return runTwoSubs(c)
+	case "spin-terminal":
+		return runSpinTerminal(c)
 	}
 	return runOp(c)
 }
